@@ -27,6 +27,19 @@ C07 model of `FieldIndex.sort` itself, every sort_type; ~45 % of the sorted comm
    answer instead of ValueError                                                              caught
 14 FieldIndex.nbest_descending: `heapq.nlargest(limit + 1, ...)` (one id too many)            caught
 15 CatalogQuery.sort: `numdocs = limit` instead of `min(numdocs, limit)`                       caught
+
+Result stability and None/falsy query values (builder wt_strong4).  `recheck` re-reads the (num, ids) pairs that
+earlier searches handed out (the last 8 are kept) after later catalog traffic and compares them with what they
+were; `clobber` empties the latest result the caller was handed and repeats the search.  Query values `N` (None),
+`Z` (0 under a keyword/facet index), '' (keyword 6 / facet segment 6), empty list/tuple, dict without 'query'.
+  seeded C12_E  unordered single-index search returns the index's own answer object   MISSED before, now caught
+  seeded C12_F  ordered mode treats a query VALUE of None as "not queried"            MISSED before, now caught
+  M12a KeywordIndex.search: 'or' over one word returns the posting itself (ordered mode aliasing that is NOT of
+       the D24 shape)                                                                            caught (recheck)
+  M12b unordered mode skips '' / [] / () / {} query values                                       caught
+  M12c FieldIndex.apply drops None members of a query list of more than one element              caught
+Known finding D24 (found with `recheck` on the unchanged tree): ordered mode, one applicable keyword/facet term, one
+word under 'and', no sort index -> `ids` IS the index's posting set (see known_findings.json; witnesses()).
 """
 from lib.core import exc_name, idset
 
@@ -59,7 +72,13 @@ RULE = ("catalogs of 1-5 indexes (field, keyword, facet; attribute-name and call
         "list), sort_index (field / keyword / unknown), limit (None, 0, -1, 1, 2, huge), reverse; "
         "CatalogQuery.query and __call__ on And(...) of comparator objects (single comparators in 32-bit "
         "catalogs: And over family32 is finding D10 of C04), CatalogQuery.sort on arbitrary id "
-        "sets. non-trivial = some index becomes non-empty and a search over >= 2 indexes returns a non-empty set")
+        "sets. 10% of the generated query forms are None / falsy values (None bare, in lists and in dicts, 0, '', "
+        "empty list/tuple, dict without query: quick seed 0, 8004 cases: 3550 terms with a None/0 value alone and "
+        "1649 with None inside a list, half of each in the ordered mode; 22431 empty-list/dict/'' terms). Result "
+        "stability: `recheck` after 15% of the writes, before the final observations and after 1-4 extra writes at "
+        "the end (45538 rechecks: 44464 stable, 1074 changed in the shape of known finding D24), `clobber` after 5% "
+        "of the searches followed by the same search and an observation (3657). "
+        "non-trivial = some index becomes non-empty and a search over >= 2 indexes returns a non-empty set")
 LEVEL_TEXT = ("Lean 4 proof: for every catalog (any list of field/keyword/facet indexes, arbitrary discriminator "
               "functions), every history of catalog calls and every docid, each index ends in exactly the state "
               "of the same index run stand-alone on the calls projected to it with its own discriminated "
